@@ -35,9 +35,11 @@ without a budget.  Here:
   FALSE also of the repaired accounting (fix bc28f13: a document is charged from its own `DocumentStart` through its
   `DocumentEnd`).  `iter_isolated_budgeted_counterexample`: a document that exceeds `max_events` exactly AT its
   `DocumentEnd` yields its value, and the breach — observed lazily, by the iterator's own `peek` for the next
-  document — ends the iteration.  `iter_isolated_budgeted_counting_counterexample`: the alias/anchor ratio is checked
-  by `finish()` only, against the counters of the LAST document, so a document that violates it contributes an extra
-  error item on its own but not inside a stream.  Both halves of `TrailOk` are needed.
+  document — ends the iteration.  `iter_isolated_budgeted_counting_counterexample`: the same happens with the
+  alias/anchor ratio, which the per-document policy judges at every `DocumentEnd` (fix: it used to be judged by
+  `finish()` only, against the counters of the LAST document — a violating document contributed an extra error item
+  on its own but not inside a stream; `ratio_judged_per_document_regression`: now the same two items, value and
+  `Budget` at its own `DocumentEnd`, at every position).  Both halves of `TrailOk` are needed.
 * (2) / (3) documents in which the PUMP fails before the document ends — an alias to an anchor of an earlier
   document NESTED anywhere (`pumpFailsInside_of_no_expansion`: every document without an expansion from the empty
   table), a budget breach inside the document, an alias limit, a scan error.  What such a document contributes on
@@ -527,26 +529,44 @@ theorem ex3_served_counting :
     Served lim (some { exLimR with enforceRatio := false }) [exA, exBad, exNull, exC] [evsA, evsBad, evsNull, evsC] :=
   served_of_check lim _ _ _ ex_unlimited ex_nofolded ex_expandEach (by decide +kernel)
 
-/-- (F) the stream under `exLimR`: three items — the alias/anchor ratio is checked by `finish()` only, i.e. at the end
-of the stream against the counters of the LAST document; on its own the first document yields a fourth item, the
-ratio breach -/
+/-- the stream under `exLimR`: the alias/anchor ratio is judged at the `DocumentEnd` of the document that violates it
+(per-document policy; before the fix it was judged by `finish()` only, at the end of the stream, against the counters
+of the LAST document: the stream yielded three items without any `Budget` error, the first document on its own four).
+The first document yields its value, then `Budget` at ITS `DocumentEnd` marker (location 3) — observed lazily, by the
+iterator's own `peek` for the next document, which ends the iteration; on its own it yields the same two items -/
 theorem cx_ratio :
     (readIter {} (.seq .string) (readPump lim (some exLimR)) (streamOf [exA, exBad, exNull, exC] 1 99)).map itemKind =
-      [("", 0), ("Unexpected", 51), ("", 0)] ∧
+      [("", 0), ("Budget", 3)] ∧
     ([exA, exBad, exNull, exC].map fun d =>
       (readIter {} (.seq .string) (readPump lim (some exLimR)) (streamOf [d] 1 99)).map itemKind) =
-      [[("", 0), ("Budget", 99)], [("Unexpected", 51)], [], [("", 0)]] := by decide +kernel
+      [[("", 0), ("Budget", 3)], [("Unexpected", 51)], [], [("", 0)]] := by decide +kernel
+
+/-- regression (the ratio used to be applied to the LAST document only): the document that violates the ratio is
+rejected at every position — first, middle, last, alone — with the same two items: its value and the `Budget` error at
+its own `DocumentEnd` (location 3); the documents before it are delivered as on their own -/
+theorem ratio_judged_per_document_regression :
+    (readIter {} (.seq .string) (readPump lim (some exLimR)) (streamOf [exA] 1 99)).map itemKind =
+      [("", 0), ("Budget", 3)] ∧
+    (readIter {} (.seq .string) (readPump lim (some exLimR)) (streamOf [exA, exBad, exNull, exC] 1 99)).map itemKind =
+      [("", 0), ("Budget", 3)] ∧
+    (readIter {} (.seq .string) (readPump lim (some exLimR)) (streamOf [exBad, exA, exC] 1 99)).map itemKind =
+      [("Unexpected", 51), ("", 0), ("Budget", 3)] ∧
+    (readIter {} (.seq .string) (readPump lim (some exLimR)) (streamOf [exC, exA] 1 99)).map itemKind =
+      [("", 0), ("", 0), ("Budget", 3)] := by decide +kernel
 
 theorem cx_ratio_lengths :
-    (readIter {} (.seq .string) (readPump lim (some exLimR)) (streamOf [exA, exBad, exNull, exC] 1 99)).length = 3 ∧
+    (readIter {} (.seq .string) (readPump lim (some exLimR)) (streamOf [exA, exBad, exNull, exC] 1 99)).length = 2 ∧
     ([exA, exBad, exNull, exC].map fun d =>
       readIter {} (.seq .string) (readPump lim (some exLimR)) (streamOf [d] 1 99)).flatten.length = 4 := by
   decide +kernel
 
-/-- (F) … so "every document within the counting limits, `DocumentEnd` included" is not enough either: the
-alias/anchor ratio heuristic is NOT applied per document — a document that violates it is accepted at every
-position but the last, and rejected (one more item, at the end of the stream) when it is the last or the only one.
-The hypothesis that excludes it: the final ratio check of every document is silent (the other half of `TrailOk`). -/
+/-- (F) … so "every document within the counting limits, `DocumentEnd` included" is not enough either.  The
+alias/anchor ratio heuristic IS applied per document (at the document's own `DocumentEnd`, wherever the document stands:
+`ratio_judged_per_document_regression`, `Props.C07.perdoc_ratio_position_independent`), but — like every breach raised
+at a `DocumentEnd` (`iter_isolated_budgeted_counterexample`) — it is observed lazily, after the value of the document
+has been yielded, by the iterator's own `peek`, and ends the iteration: the later documents, each of which is
+accepted on its own, are lost.  The hypothesis that excludes it: the ratio check at the `DocumentEnd` of every document
+is silent (the other half of `TrailOk`). -/
 theorem iter_isolated_budgeted_counting_counterexample : ¬ iter_isolated_budgeted_counting_Full := by
   intro h
   have := (h lim exLimR [exA, exBad, exNull, exC] 1 99 [evsA, evsBad, evsNull, evsC] {} (.seq .string)
@@ -877,6 +897,7 @@ example : sameItems (readIter {} (.seq .string) (readPump lim (some exLimN))
 #print axioms cx_budget_singles
 #print axioms iter_isolated_budgeted_counterexample
 #print axioms iter_isolated_budgeted_counting_counterexample
+#print axioms ratio_judged_per_document_regression
 #print axioms iter_failing_doc
 #print axioms iter_failing_doc_alone
 #print axioms pumpFailsInside_of_no_expansion
